@@ -1,8 +1,8 @@
 SPECIFICATION Spec
 CONSTANTS
-  Roots <- N_ReadsRoots
-  Ops <- N_NoOps
-  Scheds = {"any"}
+  Roots <- N_Roots
+  Ops <- N_RollOps
+  Scheds = {"sync"}
   MaxDepth = 1
   MaxRuns = 1
   MaxTasks = 12
@@ -14,8 +14,8 @@ CONSTANTS
   OverwriteTags <- None_
   StickyKwargs = FALSE
   LazySetitemLost = FALSE
-  RollShortcut = FALSE
-  SharedHandle = TRUE
+  RollShortcut = TRUE
+  SharedHandle = FALSE
 VIEW View
-INVARIANT OrderIndependent
+INVARIANT SameAsNumpy
 CHECK_DEADLOCK FALSE
